@@ -281,8 +281,12 @@ func checkC18(c *hx.Ctx) {
 		{"Ed25519-2018 for keyAgreement", func(e map[string]interface{}) {
 			e["type"], e["purposes"] = "Ed25519VerificationKey2018", []interface{}{"authentication", "keyAgreement"}
 		}},
-		{"Ed25519-2020 for keyAgreement", func(e map[string]interface{}) { e["type"], e["purposes"] = "Ed25519VerificationKey2020", []interface{}{"keyAgreement"} }},
-		{"X25519 for authentication", func(e map[string]interface{}) { e["type"], e["purposes"] = "X25519KeyAgreementKey2019", []interface{}{"authentication"} }},
+		{"Ed25519-2020 for keyAgreement", func(e map[string]interface{}) {
+			e["type"], e["purposes"] = "Ed25519VerificationKey2020", []interface{}{"keyAgreement"}
+		}},
+		{"X25519 for authentication", func(e map[string]interface{}) {
+			e["type"], e["purposes"] = "X25519KeyAgreementKey2019", []interface{}{"authentication"}
+		}},
 		{"X25519 for capabilityInvocation after keyAgreement", func(e map[string]interface{}) {
 			e["type"], e["purposes"] = "X25519KeyAgreementKey2019", []interface{}{"keyAgreement", "capabilityInvocation"}
 		}},
@@ -299,8 +303,12 @@ func checkC18(c *hx.Ctx) {
 		{"endpoint not a URI", func(e map[string]interface{}) { e["serviceEndpoint"] = "not a uri" }},
 		{"endpoint empty", func(e map[string]interface{}) { e["serviceEndpoint"] = "" }},
 		{"endpoint relative", func(e map[string]interface{}) { e["serviceEndpoint"] = "relative/path" }},
-		{"endpoint list second invalid", func(e map[string]interface{}) { e["serviceEndpoint"] = []interface{}{"https://ok.example", "not a uri"} }},
-		{"endpoint list third invalid", func(e map[string]interface{}) { e["serviceEndpoint"] = []interface{}{"https://ok.example", "https://ok2.example", "::bad"} }},
+		{"endpoint list second invalid", func(e map[string]interface{}) {
+			e["serviceEndpoint"] = []interface{}{"https://ok.example", "not a uri"}
+		}},
+		{"endpoint list third invalid", func(e map[string]interface{}) {
+			e["serviceEndpoint"] = []interface{}{"https://ok.example", "https://ok2.example", "::bad"}
+		}},
 		{"endpoint list invalid after object", func(e map[string]interface{}) {
 			e["serviceEndpoint"] = []interface{}{map[string]interface{}{"uri": "https://a.example"}, "not a uri"}
 		}},
